@@ -30,7 +30,7 @@ impl Case for Doc {
 
 pub const CLASSES: &[&str] = &[
     "valid", "unknown-name", "other-kind-name", "zero-keys", "two-keys", "non-object", "body-wrong-type",
-    "missing-field", "extra-field", "field-wrong-type", "dup-top-key", "dup-field", "name-as-string",
+    "missing-field", "extra-field", "field-wrong-type", "dup-top-key", "dup-field", "name-as-string", "extra-field-number",
 ];
 
 fn obj_text(pairs: &[(String, String)]) -> String {
@@ -109,6 +109,14 @@ pub fn doc_strategy(
                         let mut b = body.clone();
                         b.as_object_mut().unwrap().insert("vp_unknown_field".into(), json!([1, "x"]));
                         json!({ name.as_str(): b }).to_string()
+                    }
+                    "extra-field-number" => {
+                        // an unknown (ignored) field holding a number literal outside CosmWasm's
+                        // integer-only dialect: float, exponent form, beyond 128 bits
+                        const LITS: &[&str] = &["1.5", "-0.25", "1e3", "340282366920938463463374607431768211456", "-170141183460469231731687303715884105729", "555555555555555555555555555555555555555555555555555555555555"];
+                        let mut pairs: Vec<(String, String)> = body.as_object().unwrap().iter().map(|(k, v)| (k.clone(), v.to_string())).collect();
+                        pairs.push(("vp_unknown_field".to_string(), LITS[(aux as usize) % LITS.len()].to_string()));
+                        obj_text(&[(name.clone(), obj_text(&pairs))])
                     }
                     "field-wrong-type" => {
                         let mut b = body.clone();
